@@ -52,6 +52,9 @@ pub enum Base {
     /// acknowledged by the peer) and a PINGREQ is queued behind it in the control pipeline: tear-down must fail
     /// that send, or service shutdown waits for the handler, which waits for the send, for ever
     HandlerSends,
+    /// servers: a gated SUBSCRIBE handler that never completes with two PINGREQs queued behind it in the control
+    /// pipeline (the handler must be cancelled and the queue given up, or tear-down waits for ever)
+    HandlersQueued,
 }
 
 #[derive(Clone, Debug)]
@@ -117,6 +120,7 @@ fn script_for(cfg: &TdCfg) -> Vec<BaseStep> {
             BaseStep::StartSender(3, SK::Q0),
         ],
         Base::Sends => vec![BaseStep::StartSender(0, SK::Q1), BaseStep::StartSender(1, SK::Q1), BaseStep::StartSender(2, SK::Ready)],
+        Base::HandlersQueued => vec![BaseStep::Send(Pkt::Subscribe { pid: 3, props: vec![], filters: vec![("f/1".into(), 0)] }), BaseStep::Send(Pkt::PingReq), BaseStep::Send(Pkt::PingReq)],
         Base::HandlerSends => vec![BaseStep::Send(Pkt::Subscribe { pid: 3, props: vec![], filters: vec![("f/1".into(), 0)] }), BaseStep::Send(Pkt::PingReq), BaseStep::Send(Pkt::PingReq)],
         Base::Bytes => {
             let mut all = Vec::new();
@@ -345,7 +349,9 @@ impl Scenario for Td {
             return Err(Violation::new("stop-class", self.wit(), format!("control service saw {} but the cause calls for {want}: {}", stops[0], self.detail())));
         }
         if !self.conn.done() {
-            return Err(Violation::new("task-not-completed", self.wit(), format!("connection task still running 60 virtual seconds after the Stop: {}", self.detail())));
+            // one defect whatever the cause: the witness of this base does not name it (known findings C07-1/2)
+            let wit = if self.cfg.base == Base::HandlersQueued { format!("{} HandlersQueued", self.cfg.ep.label()) } else { self.wit() };
+            return Err(Violation::new("task-not-completed", wit, format!("connection task still running 60 virtual seconds after the Stop: {}", self.detail())));
         }
         // every pending send / readiness future resolved, with an error unless it had completed before
         {
@@ -412,7 +418,7 @@ pub fn configs(tier: Tier) -> Vec<TdCfg> {
     let mut v = Vec::new();
     let causes = [Cause::PeerClose, Cause::ReadErr, Cause::WriteErr, Cause::Garbage, Cause::ProtoViolation, Cause::HandlerErr, Cause::ProtoErr, Cause::KeepAlive, Cause::Close, Cause::ForceClose, Cause::ReadyErr];
     for (ver, role) in crate::c05::roles() {
-        for base in [Base::Handlers, Base::Streaming, Base::StreamingDetached, Base::Sends, Base::SendsCb, Base::Bytes, Base::Backpressure, Base::OutStream, Base::HandlerSends] {
+        for base in [Base::Handlers, Base::Streaming, Base::StreamingDetached, Base::Sends, Base::SendsCb, Base::Bytes, Base::Backpressure, Base::OutStream, Base::HandlerSends, Base::HandlersQueued] {
             for cause in causes {
                 if base == Base::Bytes && !matches!(cause, Cause::PeerClose | Cause::ReadErr | Cause::ForceClose | Cause::Garbage) {
                     continue;
@@ -421,7 +427,7 @@ pub fn configs(tier: Tier) -> Vec<TdCfg> {
                     // undecodable bytes are only "a new packet" at packet boundaries; mid-packet they are payload/fields
                     continue;
                 }
-                if cause == Cause::ProtoErr && (role == Role::Client || base != Base::Handlers) {
+                if cause == Cause::ProtoErr && (role == Role::Client || !matches!(base, Base::Handlers | Base::HandlersQueued)) {
                     continue;
                 }
                 if cause == Cause::HandlerErr && !matches!(base, Base::Handlers | Base::Backpressure) {
@@ -437,6 +443,9 @@ pub fn configs(tier: Tier) -> Vec<TdCfg> {
                     continue;
                 }
                 if base == Base::HandlerSends && (role == Role::Client || matches!(cause, Cause::HandlerErr | Cause::ProtoErr | Cause::ReadyErr)) {
+                    continue;
+                }
+                if base == Base::HandlersQueued && (role == Role::Client || matches!(cause, Cause::HandlerErr | Cause::ReadyErr)) {
                     continue;
                 }
                 let mut ep = EpCfg::new(ver, role);
